@@ -26,6 +26,11 @@ def plans(tier):
             dict(fmt="tfrec", eps=2, depth=3,
                  letters=letters(("train",), ("ok", "shape1"),
                                  ("-", "A", "B"))),
+            dict(fmt="fb", eps=3, depth=6,
+                 letters=letters(("train",), ("ok",),
+                                 ("AX", "XA", "N1", "N2"))),
+            dict(fmt="npz", eps=2, depth=4,
+                 letters=letters(two, ("ok",), ("AX", "XA", "N1", "N2"))),
         ]
     return [
         dict(fmt="fb", eps=2, depth=3,
@@ -38,6 +43,11 @@ def plans(tier):
              letters=letters(("train",), ("ok", "shape1"), ("-", "A", "SB"))),
         dict(fmt="tfrec", eps=2, depth=2,
              letters=letters(("train",), ("ok", "shape1"), ("-", "A", "B"))),
+        # equal values whose keys were inserted in another order (no change)
+        dict(fmt="fb", eps=3, depth=4,
+             letters=letters(("train",), ("ok",), ("AX", "XA", "N1", "N2"))),
+        dict(fmt="npz", eps=2, depth=3,
+             letters=letters(two, ("ok",), ("AX", "XA"))),
     ]
 
 
